@@ -88,7 +88,8 @@ def floors(tier):
                 'path:target-record': 100, 'path:compdb-entry': 100,
                 'path:exec-step': 100, 'path:disk-output': 60,
                 'args:spelling-pair': 120, 'args:model': 90,
-                'args:regen-compare': 80, 'distinct_nontrivial': 90}
+                'args:regen-compare': 80, 'pcsub:include-dir-checked': 20,
+                'distinct_nontrivial': 90}
     return {'submodule:identity-checked': 3000, 'submodule:kept-checked': 3000,
             'path:extra-dep': 300, 'path:include': 1000,
             'run:configure': 3000, 'run:regenerate': 1500, 'run:make': 350,
@@ -101,6 +102,8 @@ def floors(tier):
 
 
 def cases(tier, seed):
+    for c in gen_pcsub_cases():
+        yield c
     ntree, nargs = (30, 25) if tier == 'quick' else (600, 750)
     # interleave so that a --limit run sees both kinds
     per = max(1, ntree // max(1, nargs))
@@ -1192,6 +1195,82 @@ def run_case(case):
     res.evaluations = 1
     if case['kind'] == 'tree':
         run_tree(case, res)
+    elif case['kind'] == 'pcsub':
+        run_pcsub(case, res)
     else:
         run_args(case, res)
     return res
+
+
+# ---------------------------------------------------------------------------
+# strings that are converted LATER than the call that received them
+#
+# pkg_config(..., includes=['dir'], auto_fill=...) inside a submodule: the string names a
+# directory relative to the submodule, whenever bfg9000 gets round to converting it (the
+# auto-filled descriptions are finished after every script has run).  Observed through the real
+# pkg-config on the generated -uninstalled.pc.
+
+def gen_pcsub_cases():
+    n = 0
+    for depth_dir in ('lib', 'pkgs/core', 'a/b/c'):
+        for auto in (True, False):
+            for form in ('string', 'string-list', 'header_directory', 'string-dotdot'):
+                n += 1
+                yield {'kind': 'pcsub', 'tag': 'pcsub-%d' % n, 'dir': depth_dir, 'auto': auto,
+                       'form': form}
+
+
+def run_pcsub(case, res):
+    d, auto, form = case['dir'], case['auto'], case['form']
+    root = core.mkscratch('c19p')
+    try:
+        src, bld = os.path.join(root, 'src'), os.path.join(root, 'bld')
+        inc_rel = {'string': 'include', 'string-list': 'include',
+                   'header_directory': 'include', 'string-dotdot': '../shared inc'}[form]
+        inc_expr = {'string': "'include'", 'string-list': "['include']",
+                    'header_directory': "[header_directory('include')]",
+                    'string-dotdot': "['../shared inc']"}[form]
+        inc_abs = os.path.normpath(os.path.join(src, d, inc_rel))
+        name = 'pc' + case['tag'].replace('-', '')
+        chain = d.split('/')
+        files = {'build.bfg': "project(%r, '1.0')\nsubmodule(%r)\n" % (name, chain[0])}
+        for i in range(1, len(chain)):
+            files['/'.join(chain[:i]) + '/build.bfg'] = 'submodule(%r)\n' % chain[i]
+        files[d + '/build.bfg'] = (
+            "lib = static_library('hello', files=['hello.c'], includes=%s)\n"
+            "install(lib)\n"
+            "pkg_config(%r, version='1.0', includes=%s, libs=[lib]%s)\n"
+            % (inc_expr, name, inc_expr, ', auto_fill=True' if auto else ''))
+        files[d + '/hello.c'] = '#include "hello.h"\nint hello(void) { return HELLO; }\n'
+        files[os.path.relpath(os.path.join(inc_abs, 'hello.h'), src)] = '#define HELLO 7\n'
+        # a look-alike at the top: what a conversion against the wrong script would find
+        files['include/hello.h'] = '#define HELLO 666\n'
+        proj.write_tree(src, files)
+        env = core.base_env(proj.stub_toolchain_env(os.devnull))
+        rc, out = core.run([BFG, 'configure', bld, '--backend', 'make', '--no-resolve-packages',
+                            '--prefix', os.path.join(root, 'pfx')], cwd=src, env=env,
+                           timeout=120)
+        res.ev('pcsub:configure')
+        res.key(['pcsub', d, auto, form], True)
+        w = {'script_dir': d, 'auto_fill': auto, 'form': form, 'kind': 'pkg_config.includes',
+             'declaration': files[d + '/build.bfg'], 'context': 'pkg-config --cflags'}
+        if rc != 0:
+            res.violate(('configure', 'failed', 'pkg_config-in-submodule'),
+                        dict(w, output=out[-600:]))
+            return
+        penv = dict(core.base_env(), PKG_CONFIG_PATH=os.path.join(bld, 'pkgconfig'))
+        rc, out = core.run(['pkg-config', '--cflags-only-I', name + '-uninstalled'], env=penv,
+                           timeout=60)
+        import shlex
+        dirs = [os.path.realpath(a[2:]) for a in shlex.split(out) if a.startswith('-I')] \
+            if rc == 0 else []
+        res.ev('pcsub:include-dir-checked')
+        if rc != 0 or os.path.realpath(inc_abs) not in dirs:
+            res.violate(('path', 'input', 'pkg_config.includes',
+                         'resolved-against-root' if os.path.realpath(
+                             os.path.join(src, inc_rel)) in dirs else 'elsewhere'),
+                        dict(w, expected=inc_abs, got=dirs, rc=rc, output=out[-300:]))
+        if res.sample is None:
+            res.sample = dict(w, include_dirs=dirs)
+    finally:
+        core.rmtree(root)
